@@ -232,7 +232,8 @@ pub struct WasmGenerator {
     getelement_registers: HashMap<mir::VReg, wasm_encoder::ValType>,
     /// GetElement registers whose element is a scalar cell (number, int, function handle): a closure
     /// that captures such a register (a variable bound by a tuple/record pattern) must go through the
-    /// element's address, like the capture of a single-word alloc cell.
+    /// element's address, like the capture of a single-word alloc cell. Likewise the
+    /// TaggedUnionGetValue registers (address of a constructor's payload) with a scalar payload.
     getelement_capture_indirect: HashMap<mir::VReg, bool>,
     /// Maps MIR function index to its WASM type section index
     fn_type_indices: Vec<u32>,
@@ -2111,7 +2112,17 @@ impl WasmGenerator {
                             Self::type_to_valtype(&union_type.to_type())
                         }
                         I::TaggedUnionGetTag(_) => ValType::I64,
-                        I::TaggedUnionGetValue(_, _) => ValType::I64, // produces a pointer (address)
+                        I::TaggedUnionGetValue(_, payload_ty) => {
+                            // produces a pointer (the address of the payload). The decision tree
+                            // of a tuple match binds a pattern variable to this register: a
+                            // closure that captures it has to go through the address, like for
+                            // a variable bound to an element of a tuple.
+                            self.getelement_capture_indirect.insert(
+                                *reg_idx,
+                                Self::alloc_capture_should_be_indirect(&payload_ty.to_type()),
+                            );
+                            ValType::I64
+                        }
                         // PhiSwitch inherits type from its first input
                         I::PhiSwitch(inputs) => inputs
                             .first()
